@@ -166,21 +166,9 @@ Definition sq8_model_agrees (nums : list Z) (sh : Z) (o : sqout) : bool :=
   end.
 
 (* ------------------------------------------------------------------ the contract *)
-(* the model reproduces every observation up to (not including) the call after which more than half of
-   the first node page is in use: from there on the implementation's slot offsets alias (F-C25-3) and
-   the model, which has no bytes, makes no prediction *)
-Fixpoint agree (p : params) (w : world) (tr : list (op * obs)) : bool :=
-  match tr with
-  | [] => true
-  | (o, b) :: t =>
-      let '(w1, b') := step p w o in
-      if HALF_PAGE <? page_use (ix w1) then true
-      else obs_eqb b' b && agree p w1 t
-  end.
-
 Definition model_agrees (c : case) : bool :=
   match c with
-  | Hist d m e tr => agree (Pm d m e) w0 tr
+  | Hist d m e tr => obs_list_eqb (snd (run (Pm d m e) w0 (map fst tr))) (map snd tr)
   | Sq8 nums sh o => sq8_model_agrees nums sh o
   end.
 
@@ -191,16 +179,14 @@ Definition spec_ok (c : case) : bool :=
   end.
 
 (* class of the model state in which the first offending call was made (0 when nothing offends):
-   1 = some node has been deleted (F-C25-1), 2 = the entry point has been deleted (F-C25-2),
-   3 = more than half of the first node page is in use (F-C25-3).  For an offending insert the state
-   after the call counts (it is the insert itself that writes over other slots). *)
+   1 = some node is deleted but the entry point is readable (what is left of F-C25-1: F-C25-4),
+   2 = the entry point is deleted (F-C25-2) *)
 Definition known_class (c : case) : Z :=
   match c with
   | Hist d m e tr =>
       match spec_fail_at c with
       | None => 0
-      | Some i => Z.max (class_of (ix (run0 (Pm d m e) (map fst (firstn i tr)))))
-                        (if class_of (ix (run0 (Pm d m e) (map fst (firstn (S i) tr)))) =? 3 then 3 else 0)
+      | Some i => class_of (ix (run0 (Pm d m e) (map fst (firstn i tr))))
       end
   | Sq8 _ _ _ => 0
   end.
